@@ -465,7 +465,7 @@ Proof.
     split; [congruence|]. split; [congruence|]. split; [congruence|].
     split; [reflexivity|]. split; [reflexivity|]. split.
     + intros Hg. rewrite E3, R5 in Hg. apply N.eqb_eq in Hg. apply mcode3_held. apply T3. now apply mcode3_held.
-    + intros _ Hk. exfalso. exact (mkind_ne0 _ Hk).
+    + intros _ Hk. exfalso. unfold d_isr in Hk. cbn [mdesc_x dk] in Hk. unfold mkind in Hk. destruct (m_is_lock_pc (mp x')); discriminate Hk.
   - cbn [mdesc_of tgt_h] in *. rewrite !orb_false_r in *. unfold Q1. cbn [dk dc drel dcanc dw] in *.
     destruct (mcode_nocall s (HRel t f)) as [N3 _]; [intros k; discriminate|].
     repeat split; try congruence; intros; try discriminate.
